@@ -409,7 +409,7 @@ class Interp:
             self_cls: Optional[ClassInfo] = None, qualname: Optional[str] = None) -> Record:
         rec = Record()
         qn = qualname or (f"{self_cls.qualname}.{fnode.name}" if self_cls else f"{mod.name}.{fnode.name}")
-        mod = self.repo.fn_home.get(id(fnode), mod)       # an inherited method runs in the module that defines it
+        mod = getattr(self.repo, "fn_home", {}).get(id(fnode), mod)       # an inherited method runs in the module that defines it
         frame = _Frame(self, mod, fnode, self_cls, rec, qn, depth=0, stack=(id(fnode),))
         st = frame.bind_params(args or {}, symbolic_missing=True)
         final = frame.exec_block(fnode.body, st)
@@ -459,7 +459,7 @@ class Interp:
                             return None
         if node is None or not node.keys or any(kk is None for kk in node.keys):
             return None
-        mod = self.repo.fn_home.get(id(init), ci.module)
+        mod = getattr(self.repo, "fn_home", {}).get(id(init), ci.module)
         fr = _Frame(self, mod, init, ci, Record(), f"{ci.qualname}.__init__", 0, ())
         st = State({"self": param("self")}, {}, ())
         items = []
@@ -3234,7 +3234,7 @@ class _Frame:
             return None
         if any(a.op == "star" for a in args) or any(k == "**" for k, _ in kwargs):
             return None
-        mod = self.repo.fn_home.get(id(fnode), mod)
+        mod = getattr(self.repo, "fn_home", {}).get(id(fnode), mod)
         body = [b for b in fnode.body if not (isinstance(b, ast.Expr) and isinstance(b.value, ast.Constant))]
         if len(body) != 1 or not isinstance(body[0], ast.For) or body[0].orelse:
             return None
@@ -3293,7 +3293,7 @@ class _Frame:
             dn = ast.unparse(d)
             if dn not in ("staticmethod", "classmethod") and not (cls is None and self.I.decorators_return_function(mod, fnode)):
                 return None
-        mod = self.repo.fn_home.get(id(fnode), mod)
+        mod = getattr(self.repo, "fn_home", {}).get(id(fnode), mod)
         fr = _Frame(self.I, mod, fnode, cls, self.rec, qualname, self.depth + 1, self.stack + (id(fnode),),
                     base_pc=st.pc, base_loops=self.loops, base_trys=self.trys)
         pos = list(args)
